@@ -739,3 +739,33 @@ Proof.
   intros n n' l l' H1 H2 H3 H4 H5 H6 H7.
   pose proof (order_ws_parse n n' l l' H1 H2 H3 H4 H5 H6 H7) as E. rewrite E. auto.
 Qed.
+
+(* ================= names that do not use the reserved tag ================= *)
+
+Lemma lget_put_all_other : forall l m k, (forall kv, In kv l -> fst kv <> k) ->
+  lget k (put_all l m) = lget k m.
+Proof.
+  induction l as [|[k0 v0] l IH]; intros m k H; cbn; auto.
+  unfold put_all in IH. rewrite IH by (intros kv Hkv; apply H; right; exact Hkv).
+  rewrite lget_lput. destruct (beqb k k0) eqn:E; auto.
+  apply beqb_true in E. subst. exfalso. apply (H (k0, v0)); [left; reflexivity|reflexivity].
+Qed.
+
+(* a name that does not use the reserved tag gets its application name from the name position: no '{' in it *)
+Theorem app_name_render : forall n l, name_ok n -> Forall tag_ok l ->
+  (forall kv, In kv l -> trim (fst kv) <> name_key) ->
+  app_name (parse (render n l)) = trim n /\ has c_lbrace (app_name (parse (render n l))) = false.
+Proof.
+  intros n l Hn Hl Hres.
+  assert (E : app_name (parse (render n l)) = trim n).
+  { rewrite parse_render by auto. unfold app_name. rewrite lget_put_all_other.
+    - cbn. reflexivity.
+    - intros kv Hkv. unfold trim_tags in Hkv. apply in_map_iff in Hkv. destruct Hkv as [[k v] [<- Hkv]].
+      cbn. apply (Hres _ Hkv). }
+  split; [exact E|]. rewrite E. apply has_trim_false. exact Hn.
+Qed.
+
+Corollary fixpoint_no_reserved : forall n l, name_ok n -> Forall tag_ok l ->
+  (forall kv, In kv l -> trim (fst kv) <> name_key) ->
+  parse (normalized (parse (render n l))) = parse (render n l).
+Proof. intros n l Hn Hl Hres. apply fixpoint_partial. apply app_name_render; auto. Qed.
